@@ -475,4 +475,4 @@ Definition okr_h : hist_t :=
 Definition okr_sched :=
   [Deliver (-2) 2; Deliver 2 0; Deliver (-1) 1; Deliver 1 0; Deliver (-1) 1; Deliver 1 0;
    Deliver (-2) 2; Deliver 2 0; Deliver 0 2; Deliver (-1) 1; Deliver 1 0; Deliver 0 2;
-   Deliver (-1) 1; Deliver 1 0; Deliver 0 2; Deliver 0 0].
+   Deliver (-1) 1; Deliver 1 0; Deliver 0 2; Deliver 0 0; Deliver 0 0; Deliver 0 2; Deliver 0 2].
